@@ -46,6 +46,25 @@ theorem C01_files_same_string (O : CanonOracle) (σ τ : Nat → Nat) (m m' : Mo
   have _ := hr; have _ := hr'
   exact isGraphOf_same_string_perm O σ τ m m' hm hm' same c c' hc hc' g g' hg hg' s s' hs hs'
 
+/-- … with the reading of the texts inside the statement: two texts that `ReadsAs` molecules `m` and `m'` (what
+`C06_v3000_file_readsAs` / `C06_v2000_file_readsAs` establish for a V3000 or V2000 file stating the molecule, in any
+spelling, with any header and line endings), `m'` being `m` listed in another order: both texts are read, and
+whatever graphs and strings come out, the strings are equal. -/
+theorem C01_texts_same_string (O : CanonOracle) (σ τ : Nat → Nat) (m m' : Mol) (hm : m.Ok) (hm' : m'.Ok)
+    (same : SameMolecule σ τ m m') (c c' : List (Str × Str × Str))
+    (hc : c.length = m.atoms.length) (hc' : c'.length = m'.atoms.length)
+    (text text' : Str) (r : ReadsAs text m c) (r' : ReadsAs text' m' c') :
+    (∃ g g', graphFromMolfileText text = .ok g ∧ graphFromMolfileText text' = .ok g') ∧
+    ∀ g g' s s', graphFromMolfileText text = .ok g → graphFromMolfileText text' = .ok g' →
+      tucanOf O.order g = .ok s → tucanOf O.order g' = .ok s' → s = s' := by
+  obtain ⟨g0, hg0, ig0⟩ := readsAs_graph_of m hm c hc text r
+  obtain ⟨g0', hg0', ig0'⟩ := readsAs_graph_of m' hm' c' hc' text' r'
+  refine ⟨⟨g0, g0', hg0, hg0'⟩, ?_⟩
+  intro g g' s s' hg hg' hs hs'
+  rw [hg0] at hg; rw [hg0'] at hg'
+  cases hg; cases hg'
+  exact isGraphOf_same_string_perm O σ τ m m' hm hm' same c c' hc hc' g0 g0' ig0 ig0' s s' hs hs'
+
 /-- the contract the theorem quantifies over is satisfiable -/
 theorem C01_oracle_contract_inhabited : Nonempty CanonOracle := CanonOracle.nonempty
 
